@@ -112,6 +112,14 @@ def check_one(case, ctx, deep):
         pd = permuted_dict(d, rnd)
         loaded = ctx.call('fromdict(raw)', plain, concepts.Context.fromdict, pd, raw=True)
         check_lattice(loaded.lattice, 'fromdict(raw)/', case, ref, maps, ctx, plain)
+        if deep:
+            # second hop: what was loaded from a permuted encoding is serialised again and reloaded (ordered reload, pickle)
+            import pickle
+            d2 = ctx.call('fromdict(raw)/todict', plain, loaded.todict)
+            again = ctx.call('fromdict(raw)/todict/fromdict', plain, concepts.Context.fromdict, d2)
+            check_lattice(again.lattice, 'fromdict(raw)/second-hop/', case, ref, maps, ctx, plain)
+            check_lattice(ctx.call('fromdict(raw)/pickle', plain, lambda: pickle.loads(pickle.dumps(loaded.lattice))),
+                          'fromdict(raw)/pickle/', case, ref, maps, ctx, plain)
         import io
         import json
         loaded = ctx.call('fromjson(raw)', plain, concepts.Context.fromjson, io.StringIO(json.dumps(pd)), raw=True)
